@@ -334,7 +334,7 @@ def run(ctx):
     if os.path.exists(os.path.join(C.COQ, "Extract", "C02READER.v")):
         ctx.assumptions += ["charset.NewReader (character-set sniffing of ach.NewReader: bytes that are not UTF-8 are decoded as windows-1252) delivers valid UTF-8; the model reads a text declared as UTF-8 (bufio.ScanRunes on the bytes), C02_reader_domain_lines covers every list of valid UTF-8 lines",
                             "time.Now().Format(\"1504\") is four characters of valid UTF-8 (the clock of C02_reader_domain)"]
-        summ = reader_run(ctx, ctx.scale(60, 400), ctx.scale(2400, 24000))
+        summ = reader_run(ctx, ctx.scale(60, 400), ctx.scale(2600, 24000))
         ctx.add_summary(summ, "reader domain oracle")
 
 
